@@ -22,7 +22,8 @@ Kinds ==
               {"log_prob", "sample", "sample_and_log_prob", "transform_to_noise"} },
       b \in BOOLEAN, a \in BOOLEAN }
 
-InputKinds == {"plain", "view", "noncontig", "grad"}
+\* "nograd": a plain input, the call made under torch.no_grad() (inference)
+InputKinds == {"plain", "view", "noncontig", "grad", "nograd"}
 \* operations that run the transform in the data -> noise direction
 ForwardLike == {"forward", "log_prob", "transform_to_noise"}
 
